@@ -201,10 +201,10 @@ def run(tier: str, seed: int) -> int:
             meta[it.id] = m
             return it
 
-        lib_mods = []
+        lib_mods = {}
         for d in defs:
-            lib_path = "crate::m%06d" % d.id
-            lib_mods.append("pub mod m%06d {\n%s}\n" % (d.id, d.body(lib_path)))
+            lib_path = "crate::k%06d" % d.id
+            lib_mods[d.id] = d.body(lib_path)
             # in-crate positive probes: definition + probes at the three in-crate locations
             pos = {"inner": [], "outer": [], "root": []}
             it_id = nid[0] + 1
@@ -267,7 +267,7 @@ def run(tier: str, seed: int) -> int:
                 ok = access(vis, "ext") if kind == "struct" else (access(vis, "ext") and access(lev, "ext"))
                 if f == "range" and "iter" in d.cfg.feats:
                     ok = ok and access(d.cfg.feats["iter"].get("vis", lev), "ext")
-                path = "vdefs::m%06d::outer::inner::" % d.id
+                path = "vdefs::k%06d::outer::inner::" % d.id
                 if ok:
                     ext_pos.append(probe_expr(kind, path, name, f, True))
                     counts["positive"] += 1
@@ -277,14 +277,27 @@ def run(tier: str, seed: int) -> int:
                              "reject", {"def": d.describe(), "probe": probe_expr(kind, path, name, f, False),
                                         "location": "ext", "item": name, "vis": vis,
                                         "why": "item with visibility %r (enum %r) must not be reachable from another crate" % (vis, lev)},
-                             deps=("vdefs",))
+                             deps=("vdefs",)).meta["lib_def"] = d.id
             if ext_pos:
                 new_item("#[allow(unused)] pub fn probe() {\n%s\n}\n" % "\n".join("    " + s for s in ext_pos),
                          "accept", {"def": d.describe(), "probe": "external positive probes", "statements": len(ext_pos)},
-                         deps=("vdefs",))
+                         deps=("vdefs",)).meta["lib_def"] = d.id
         g = CompileGroup("vis", tier, per_crate=200)
-        g.libs["vdefs"] = "#![allow(dead_code, unused_imports, private_interfaces, unreachable_patterns)]\n" + "\n".join(lib_mods)
+        g.libs["vdefs"] = lib_mods
         with Lock(g.root + ".lock"):
+            g.build_libs()
+            bad_defs = g.lib_dropped.get("vdefs", {})
+            # definitions which do not compile: every documented name / vis / struct_name must be derivable
+            by_def = {d.id: d for d in defs}
+            for did_, errs in sorted(bad_defs.items()):
+                d = by_def[did_]
+                violations.append(Violation(
+                    prop, "C15|definition-rejected|%s|%s" % (d.kind, d.cfg.short()[:150]),
+                    "a definition using documented name / vis / struct_name parameters does not compile (enum vis %s): %s -- %s" % (
+                        d.kind, d.cfg.short()[:300], errs[0]["message"][:300]),
+                    {"kind": "compile-outcome", "expected": "accept", "observed": "reject", "meta": d.describe(),
+                     "source": d.body("crate::k000001"), "errors": [e["rendered"][:1500] for e in errs[:3]]}))
+            items = [it for it in items if it.meta.get("lib_def") not in bad_defs]
             res = g.run(items, reject_cmd="check")
             hook = g.hooklog()
         samples = []
@@ -320,6 +333,8 @@ def run(tier: str, seed: int) -> int:
         # hook-log surface scan on the library's expansions
         scanned = 0
         for d in defs:
+            if d.id in bad_defs:
+                continue  # already reported as a definition which does not compile
             rec = hook.get(d.id)
             if not rec or "end" not in rec:
                 inconclusive.append("no expansion record for definition %d" % d.id)
